@@ -23,6 +23,7 @@ impl<'a> Hit<'a> {
 //@include ../common/limitsort.rs
 //@include ../common/gram_contracts.rs
 //@include ../common/store_contract.rs
+//@include ../grams/laws.rs
 impl TrigramIndex {
     // proved in unit grams (same pre- and postcondition predicates)
     #[verifier::external_body]
@@ -71,14 +72,14 @@ pub open spec fn record_ok(r: &Record) -> bool {
     && (forall|k: int, m: int| 0 <= k < m < r.title.words@.len() ==> (#[trigger] r.title.words@[k]).slice.1 <= (#[trigger] r.title.words@[m]).slice.0)
 }
 // `h` is record `r` scored against the query: the record's own id / rating / title, and a match list for that title
-pub open spec fn scored(h: Hit, r: &Record) -> bool {
-    h.id == r.id && h.rating == r.rating
+pub open spec fn scored(h: Hit, r: &Record, query: &TextRef) -> bool {
+    tm_some(&h.title, query, (h.rmatches, h.qmatches)) && h.id == r.id && h.rating == r.rating
     && h.title.words@ == r.title.words@ && h.title.source@ == r.title.source@ && h.title.chars@ == r.title.chars@ && h.title.classes@ == r.title.classes@
     && matches_for_text(h.rmatches@, &h.title) && matches_ok(h.rmatches@) && matches_ok(h.qmatches@)
 }
 // the title returned for hit `h` under the markers `d`
 pub open spec fn shown(h: Hit, l: Seq<char>, r: Seq<char>) -> Seq<char> { render_all(h.title.source@, h.title.words@, h.rmatches@, l, r).filter(not_nul()) }
-pub open spec fn good_hit(h: Hit, recs: Seq<Record>, query: &TextRef) -> bool { exists|ix: int| 0 <= ix < recs.len() && record_ok(&recs[ix]) && #[trigger] scored(h, &recs[ix]) && hm_spec(query, &h) }
+pub open spec fn good_hit(h: Hit, recs: Seq<Record>, query: &TextRef) -> bool { exists|ix: int| 0 <= ix < recs.len() && record_ok(&recs[ix]) && #[trigger] scored(h, &recs[ix], query) && hm_spec(query, &h) }
 // one returned entry: the id of a good hit and the rendering of that hit's own title with that hit's own matches
 pub open spec fn result_ok(sr: SearchResult, recs: Seq<Record>, query: &TextRef, l: Seq<char>, r: Seq<char>) -> bool {
     exists|h: Hit| good_hit(h, recs, query) && sr.id == h.id && sr.title@ == shown(h, l, r)
@@ -93,9 +94,9 @@ pub open spec fn sel_ok(ret: Seq<SearchResult>, hs: Seq<Hit>, pos: Seq<int>, que
     pos.len() == ret.len() && pos.no_duplicates()
     && forall|k: int| 0 <= k < ret.len() ==> 0 <= #[trigger] pos[k] < hs.len() && hm_spec(query, &hs[pos[k]]) && ret[k].id == hs[pos[k]].id && ret[k].title@ == shown(hs[pos[k]], l, r)
 }
-pub open spec fn trace_ok(cands: Seq<usize>, hs: Seq<Hit>, recs: Seq<Record>) -> bool {
+pub open spec fn trace_ok(cands: Seq<usize>, hs: Seq<Hit>, recs: Seq<Record>, query: &TextRef) -> bool {
     hs.len() == cands.len() && cands.no_duplicates()
-    && forall|i: int| 0 <= i < cands.len() ==> (#[trigger] cands[i]) < recs.len() && scored(hs[i], &recs[cands[i] as int])
+    && forall|i: int| 0 <= i < cands.len() ==> (#[trigger] cands[i]) < recs.len() && scored(hs[i], &recs[cands[i] as int], query)
 }
 // where the candidates come from: the trigram index for a query with words (C05 C03), the top-rated list otherwise (C12)
 pub open spec fn cand_src(cands: Seq<usize>, st: &Store, query: &TextRef) -> bool {
@@ -106,6 +107,10 @@ pub open spec fn cand_src(cands: Seq<usize>, st: &Store, query: &TextRef) -> boo
 pub open spec fn common_gram(r: &Record, query: &TextRef) -> bool {
     exists|g: [char; 3]| #[trigger] has_gram(r.title.words@, r.title.chars@, g@) && has_gram(query.words@, query.chars@, g@)
 }
+// C03: the (first) query word is still being typed and is an exact prefix of word w of the record's title
+pub open spec fn rec_prefix(r: &Record, query: &TextRef, w: int) -> bool {
+    0 <= w < r.title.words@.len() && query.words@.len() >= 1 && !query.words@[0].fin && starts_with(word_chars(r.title.words@, r.title.chars@, w), tchars(query, 0))
+}
 // a well-formed text satisfies the index's size requirement: the word lengths add up to at most the text length
 proof fn lemma_text_ok(t: &TextRef, n: int)
     requires text_wf(t), 0 <= n <= t.words@.len(),
@@ -114,8 +119,8 @@ proof fn lemma_text_ok(t: &TextRef, n: int)
 {
     if n > 0 { lemma_text_ok(t, n - 1); if n > 1 { assert(t.words@[n - 2].slice.1 <= t.words@[n - 1].slice.0); } }
 }
-proof fn lemma_highlightable(h: Hit, r: &Record)
-    requires scored(h, r), record_ok(r)
+proof fn lemma_highlightable(h: Hit, r: &Record, query: &TextRef)
+    requires scored(h, r, query), record_ok(r)
     ensures words_wf(h.title.words@, h.title.source@.len() as int), matches_wf(h.rmatches@, h.title.words@), h.title.source@.len() <= 0x4000_0000, h.title.words@.len() <= 0x4000_0000,
 {
     assert forall|m: WordMatch| #[trigger] h.rmatches@.contains(m) implies (m.offset < h.title.words@.len() ==> m.subslice.0 <= m.subslice.1 && h.title.words@[m.offset as int].slice.0 + m.subslice.1 <= h.title.words@[m.offset as int].slice.1) by {
@@ -136,6 +141,61 @@ proof fn lemma_fmap_onto<T>(s: Seq<T>, p: spec_fn(T) -> bool)
         }
     }
 }
+// pairwise different numbers below n: at most n of them
+proof fn lemma_distinct_bounded(s: Seq<usize>, n: int)
+    requires s.no_duplicates(), forall|k: int| 0 <= k < s.len() ==> #[trigger] s[k] < n, n >= 0,
+    ensures s.len() <= n,
+{
+    let t = s.map_values(|x: usize| x as int);
+    assert(t.no_duplicates()) by { assert forall|a: int, b: int| 0 <= a < t.len() && 0 <= b < t.len() && a != b implies t[a] != t[b] by { assert(s[a] != s[b]); } }
+    t.unique_seq_to_set();
+    vstd::set_lib::lemma_int_range(0, n);
+    assert(t.to_set().subset_of(vstd::set_lib::set_int_range(0, n))) by {
+        assert forall|x: int| t.to_set().contains(x) implies vstd::set_lib::set_int_range(0, n).contains(x) by { let k = choose|k: int| 0 <= k < t.len() && t[k] == x; assert(s[k] < n); }
+    }
+    vstd::set_lib::lemma_len_subset(t.to_set(), vstd::set_lib::set_int_range(0, n));
+}
+// C03 at the level of Store::search, from the pieces: gram law G-prefix, index content (Store::indexed), completeness of the candidate
+// list under the cap (prepare_post), TM-some (scored), the one-word filter rule (hm_spec) and full coverage when everything fits
+proof fn lemma_search_c03(st: &Store, query: &TextRef, ixs: Seq<usize>, hs: Seq<Hit>, pos: Seq<int>, out: Seq<SearchResult>)
+    requires st.srch_ok(), text_wf(query), cand_src(ixs, st, query), trace_ok(ixs, hs, st.records@, query),
+        sel_ok(out, hs, pos, query, st.dividers.0@, st.dividers.1@),
+        hs.filter(passes(query)).len() <= st.limit ==> forall|i: int| 0 <= i < hs.len() && hm_spec(query, &#[trigger] hs[i]) ==> pos.contains(i),
+    ensures st.records@.len() <= st.limit && query.words@.len() == 1 ==> forall|j: int, w: int| 0 <= j < st.records@.len() && #[trigger] rec_prefix(&st.records@[j], query, w)
+                ==> exists|k: int| 0 <= k < out.len() && (#[trigger] out[k]).id == st.records@[j].id,
+{
+    let recs = st.records@;
+    if recs.len() <= st.limit && query.words@.len() == 1 {
+        lemma_filter_len(hs, passes(query));
+        lemma_distinct_bounded(ixs, recs.len() as int);
+        assert forall|j: int, w: int| 0 <= j < recs.len() && #[trigger] rec_prefix(&recs[j], query, w) implies exists|k: int| 0 <= k < out.len() && (#[trigger] out[k]).id == recs[j].id by {
+            let r = &recs[j];
+            let qc = tchars(query, 0); let rc = word_chars(r.title.words@, r.title.chars@, w);
+            assert(query.words@[0].slice.0 < query.words@[0].slice.1);
+            assert(qc == word_chars(query.words@, query.chars@, 0));
+            assert(record_ok(r));
+            assert(qc.len() >= 1 && rc.len() >= 1 && qc[0] == rc[0]);
+            lemma_gram_prefix(qc, rc);
+            lemma_common_gram(query.words@, query.chars@, 0, r.title.words@, r.title.chars@, w);
+            let g = choose|g: [char; 3]| #[trigger] has_gram(r.title.words@, r.title.chars@, g@) && has_gram(query.words@, query.chars@, g@);
+            assert(posted(st.index.dict@, g, j));
+            assert(shares(st.index.dict@, query.words@, query.chars@, j));
+            assert(ixs.contains(j as usize));
+            let i = choose|i: int| 0 <= i < ixs.len() && ixs[i] == j as usize;
+            assert(scored(hs[i], &recs[j], query));
+            assert(pair_prefix(&hs[i].title, query, w)) by { assert(tchars(&hs[i].title, w) == rc); }
+            assert(hs[i].rmatches@.len() >= 1);
+            assert(hm_spec(query, &hs[i]));
+            assert(pos.contains(i));
+            let k = choose|k: int| 0 <= k < pos.len() && pos[k] == i;
+            assert(out[k].id == hs[i].id);
+        }
+    }
+}
+proof fn lemma_filter_len<T>(s: Seq<T>, p: spec_fn(T) -> bool)
+    ensures s.filter(p).len() <= s.len()
+    decreases s.len()
+{ reveal(Seq::filter); if s.len() > 0 { lemma_filter_len(s.drop_last(), p); } }
 // a filter that every element passes keeps everything
 proof fn lemma_filter_all<T>(s: Seq<T>, p: spec_fn(T) -> bool)
     requires forall|i: int| 0 <= i < s.len() ==> p(#[trigger] s[i])
@@ -178,7 +238,7 @@ impl Store {
             forall|k: int| 0 <= k < ret@.len() ==> result_ok(#[trigger] ret@[k], self.records@, query, self.dividers.0@, self.dividers.1@), // [C02 C06 C09 C05]
             // C06 / C12: the cut happens AFTER the filter: the list has min(limit, number of candidates that pass) entries
             // and no candidate is returned twice
-            exists|cands: Seq<usize>, hs: Seq<Hit>, pos: Seq<int>| #[trigger] trace_ok(cands, hs, self.records@) && #[trigger] sel_ok(ret@, hs, pos, query, self.dividers.0@, self.dividers.1@)
+            exists|cands: Seq<usize>, hs: Seq<Hit>, pos: Seq<int>| #[trigger] trace_ok(cands, hs, self.records@, query) && #[trigger] sel_ok(ret@, hs, pos, query, self.dividers.0@, self.dividers.1@)
                 && ret@.len() == (if hs.filter(passes(query)).len() < self.limit { hs.filter(passes(query)).len() } else { self.limit as nat }) // [C06 C12]
                 // the candidates are the index's answer for the query (C05 C03 C04) or the top-rated list (C12)
                 && cand_src(cands, self, query) // [C05 C03 C04 C12 C06]
@@ -186,6 +246,10 @@ impl Store {
                 && (hs.filter(passes(query)).len() <= self.limit ==> forall|i: int| 0 <= i < hs.len() && hm_spec(query, &#[trigger] hs[i]) ==> pos.contains(i)), // [C06 C03 C04]
             // C05: a hit for a query with words is a record whose title shares a gram with the query
             query.words@.len() > 0 ==> forall|k: int| 0 <= k < ret@.len() ==> exists|j: int| 0 <= j < self.records@.len() && (#[trigger] ret@[k]).id == self.records@[j].id && common_gram(&self.records@[j], query), // [C05]
+            // C03 (search-as-you-type, modulo the tokeniser): with room for every record, a record one of whose title words starts with
+            // the single query word being typed is among the hits
+            self.records@.len() <= self.limit && query.words@.len() == 1 ==> forall|j: int, w: int| 0 <= j < self.records@.len() && #[trigger] rec_prefix(&self.records@[j], query, w)
+                ==> exists|k: int| 0 <= k < ret@.len() && (#[trigger] ret@[k]).id == self.records@[j].id, // [C03]
             // C12: a query without words returns min(limit, number of records) entries
             query.words@.len() == 0 ==> ret@.len() == (if self.records@.len() < self.limit { self.records@.len() } else { self.limit as nat }), // [C12]
     {
@@ -202,7 +266,7 @@ impl Store {
                 forall|k: int| 0 <= k < ixs@.len() ==> #[trigger] ixs@[k] < recs.len(),
                 forall|m: int| 0 <= m < __items0@.len() ==> good_hit(#[trigger] __items0@[m], recs, query),
                 hs.len() == __p0, __items0@ == hs.filter(passes(query)), ixs@.no_duplicates(),
-                forall|i: int| 0 <= i < hs.len() ==> scored(#[trigger] hs[i], &recs[ixs@[i] as int]),
+                forall|i: int| 0 <= i < hs.len() ==> scored(#[trigger] hs[i], &recs[ixs@[i] as int], query),
             decreases ixs@.len() - __p0,
         {
             let __ix = __p0;
@@ -228,11 +292,11 @@ impl Store {
             if !__keep {
                 continue;
             }
-            proof { assert(scored(__cur, &recs[ix as int])); assert(good_hit(__cur, recs, query)); }
+            proof { assert(scored(__cur, &recs[ix as int], query)); assert(good_hit(__cur, recs, query)); }
             __items0.push(__cur);
         }
         let __sel0 = limit_sort_all(__items0, self.limit, compare_hits);
-        proof { assert(trace_ok(ixs@, hs, recs)); }
+        proof { assert(trace_ok(ixs@, hs, recs, query)); }
         let ghost idx = choose|idx: Seq<int>| selection(__sel0@, __items0@, idx);
         let ghost fm = fmap(hs, passes(query));
         let ghost pos = Seq::new(__sel0@.len(), |k: int| fm[idx[k]]);
@@ -264,7 +328,7 @@ impl Store {
         let mut __out0: Vec<SearchResult> = Vec::new();
         let mut __q0 = 0;
         while __q0 < __sel0.len()
-            invariant __q0 <= __sel0@.len(), __sel0@.len() <= self.limit, trace_ok(ixs@, hs, recs), __sel0@.len() == (if hs.filter(passes(query)).len() < self.limit { hs.filter(passes(query)).len() } else { self.limit as nat }), __out0@.len() == __q0, recs == self.records@, pos.len() == __sel0@.len(), pos.no_duplicates(), cand_src(ixs@, self, query), hs.filter(passes(query)).len() <= self.limit ==> covered,
+            invariant __q0 <= __sel0@.len(), __sel0@.len() <= self.limit, trace_ok(ixs@, hs, recs, query), __sel0@.len() == (if hs.filter(passes(query)).len() < self.limit { hs.filter(passes(query)).len() } else { self.limit as nat }), __out0@.len() == __q0, recs == self.records@, pos.len() == __sel0@.len(), pos.no_duplicates(), cand_src(ixs@, self, query), hs.filter(passes(query)).len() <= self.limit ==> covered,
                 forall|k: int| 0 <= k < __sel0@.len() ==> 0 <= #[trigger] pos[k] < hs.len() && hm_spec(query, &hs[pos[k]]) && __sel0@[k] == hs[pos[k]],
                 self.srch_ok(), dividers.0@ == self.dividers.0@, dividers.1@ == self.dividers.1@,
                 forall|m: int| 0 <= m < __sel0@.len() ==> good_hit(#[trigger] __sel0@[m], recs, query),
@@ -276,8 +340,8 @@ impl Store {
             let hit = &__sel0[__jx];
             proof {
                 assert(good_hit(*hit, recs, query));
-                let ix = choose|ix: int| 0 <= ix < recs.len() && record_ok(&recs[ix]) && #[trigger] scored(*hit, &recs[ix]) && hm_spec(query, hit);
-                lemma_highlightable(*hit, &recs[ix]);
+                let ix = choose|ix: int| 0 <= ix < recs.len() && record_ok(&recs[ix]) && #[trigger] scored(*hit, &recs[ix], query) && hm_spec(query, hit);
+                lemma_highlightable(*hit, &recs[ix], query);
             }
             let __cur = { SearchResult { id: hit.id, title: highlight(&hit, dividers) } };
             __out0.push(__cur);
@@ -295,12 +359,14 @@ impl Store {
                     assert(shares(self.index.dict@, query.words@, query.chars@, j));
                     let g = choose|g: [char; 3]| has_gram(query.words@, query.chars@, g@) && #[trigger] posted(self.index.dict@, g, j);
                     assert(has_gram(recs[j].title.words@, recs[j].title.chars@, g@));
-                    assert(scored(hs[pos[k]], &recs[j]));
+                    assert(scored(hs[pos[k]], &recs[j], query));
                 }
             } else {
                 // C12: every candidate passes the filter
                 lemma_filter_all(hs, passes(query));
             }
+            // C03
+            lemma_search_c03(self, query, ixs@, hs, pos, __out0@);
         }
         __out0
     }
